@@ -271,6 +271,14 @@ def group_world(prop, tier, seed, idx):
             m = dict(members[0])
         members.append(m)
     p = rng.choice([0.02, 0.05, 0.1, 0.25, 0.5, 1.0])
+    sched = {"seed": rng.randrange(2**31), "p": p}
+    if rng.random() < 0.4:
+        # interrupt-and-restart fault: one caller is aborted between two lines of the loop (as by
+        # Ctrl-C) at its k-th yield point, k log-uniform, and calls again with the same arguments
+        import math as _m
+
+        who = rng.randrange(n)
+        sched["crash_at"] = {str(who): int(round(_m.exp(rng.uniform(0.0, _m.log(1200.0)))))}
     return {
         "engine": "A",
         "prop": prop,
@@ -278,7 +286,7 @@ def group_world(prop, tier, seed, idx):
         "kind": "group",
         "loop": "group",
         "members": members,
-        "sched": {"seed": rng.randrange(2**31), "p": p},
+        "sched": sched,
     }
 
 
